@@ -71,6 +71,8 @@ struct Case {
     axis: usize,
     qs: Vec<f64>,
     layout: u8,
+    /// both operands are windows of ONE buffer starting at the same address with the same strides
+    alias: bool,
 }
 
 fn layout_of(d: usize, k: u8) -> Layout {
@@ -112,7 +114,20 @@ fn body(c: &Case, lx: &mut Local) {
         let hi = Host::new(&c.shape, &idata(n), &lay, 9);
         let hf2 = Host::new(&c.second, &fdata(n2), &lay2, 9.0);
         let hi2 = Host::new(&c.second, &idata(n2), &lay2, 9);
-        let (a, ai, b, bi) = (hf.view(), hi.view(), hf2.view(), hi2.view());
+        // aliasing operands: the top-left windows of one array that is large enough for both shapes
+        let big: Vec<usize> = if c.alias { c.shape.iter().zip(&c.second).map(|(&x, &y)| x.max(y)).collect() } else { vec![] };
+        let nbig: usize = big.iter().product();
+        let (bigf, bigi) = if c.layout == 1 {
+            (ArrayD::from_shape_vec(IxDyn(&big).f(), fdata(nbig)).unwrap(), ArrayD::from_shape_vec(IxDyn(&big).f(), idata(nbig)).unwrap())
+        } else {
+            (ArrayD::from_shape_vec(IxDyn(&big), fdata(nbig)).unwrap(), ArrayD::from_shape_vec(IxDyn(&big), idata(nbig)).unwrap())
+        };
+        let (a, ai, b, bi) = if c.alias {
+            let win = |s: &Vec<usize>| { let s = s.clone(); move |ax: ndarray::AxisDescription| ndarray::Slice::from(0..s[ax.axis.index()]) };
+            (bigf.slice_each_axis(win(&c.shape)), bigi.slice_each_axis(win(&c.shape)), bigf.slice_each_axis(win(&c.second)), bigi.slice_each_axis(win(&c.second)))
+        } else {
+            (hf.view(), hi.view(), hf2.view(), hi2.view())
+        };
         let maxv = 4.0;
         // ---- call
         let got: Out = match c.class {
@@ -276,7 +291,7 @@ fn body(c: &Case, lx: &mut Local) {
                 }
             }
         };
-        let ctx = || format!("{} on first input of shape {:?} (layout {}), second {:?}, axis {}, qs {:?}", c.routine, c.shape, c.layout, c.second, c.axis, c.qs);
+        let ctx = || format!("{} on first input of shape {:?} (layout {}), second {:?}{}, axis {}, qs {:?}", c.routine, c.shape, c.layout, c.second, if c.alias { " (both are windows of one array, starting at the same element)" } else { "" }, c.axis, c.qs);
         match (&got, want.first()) {
             (Out::Panic(m), _) => lx.fail("C17/panic", || format!("{} panicked: {}", ctx(), m)),
             (Out::Ok(v), None) => {
@@ -393,14 +408,14 @@ fn main() {
     for shape in &shapes {
         for layout in 0..3u8 {
             for r in SINGLE {
-                cases.push(Case { routine: r, class: 0, shape: shape.clone(), second: vec![], axis: 0, qs: vec![], layout });
+                cases.push(Case { routine: r, class: 0, shape: shape.clone(), second: vec![], axis: 0, qs: vec![], layout, alias: false });
             }
             for sec in seconds(shape) {
                 for r in PAIR {
-                    cases.push(Case { routine: r, class: 1, shape: shape.clone(), second: sec.clone(), axis: 0, qs: vec![], layout });
+                    cases.push(Case { routine: r, class: 1, shape: shape.clone(), second: sec.clone(), axis: 0, qs: vec![], layout, alias: false });
                 }
                 for r in SUMPAIR {
-                    cases.push(Case { routine: r, class: 2, shape: shape.clone(), second: sec.clone(), axis: 0, qs: vec![], layout });
+                    cases.push(Case { routine: r, class: 2, shape: shape.clone(), second: sec.clone(), axis: 0, qs: vec![], layout, alias: false });
                 }
             }
             for axis in 0..shape.len() {
@@ -409,10 +424,10 @@ fn main() {
                 wl.dedup();
                 for w in wl {
                     for r in AXISW {
-                        cases.push(Case { routine: r, class: 3, shape: shape.clone(), second: vec![w], axis, qs: vec![], layout });
+                        cases.push(Case { routine: r, class: 3, shape: shape.clone(), second: vec![w], axis, qs: vec![], layout, alias: false });
                     }
                     for r in SUMAXIS {
-                        cases.push(Case { routine: r, class: 4, shape: shape.clone(), second: vec![w], axis, qs: vec![], layout });
+                        cases.push(Case { routine: r, class: 4, shape: shape.clone(), second: vec![w], axis, qs: vec![], layout, alias: false });
                     }
                 }
                 let qlists: Vec<Vec<f64>> = vec![vec![0.5], vec![0.0, 1.0, 0.3], vec![-0.1], vec![1.5], vec![0.2, 1.0000000000000002, -3.0], vec![-0.5, 7.0], vec![0.5, -1e-300], vec![-0.0], vec![1.0, -0.0, 0.0], vec![]];
@@ -426,18 +441,34 @@ fn main() {
                         if single && qs.is_empty() {
                             continue;
                         }
-                        cases.push(Case { routine: r, class: 5, shape: shape.clone(), second: vec![], axis, qs: qs.clone(), layout });
+                        cases.push(Case { routine: r, class: 5, shape: shape.clone(), second: vec![], axis, qs: qs.clone(), layout, alias: false });
                     }
                 }
             }
             if shape.len() == 2 {
                 for r in ["cov", "pearson_correlation"] {
-                    cases.push(Case { routine: r, class: 6, shape: shape.clone(), second: vec![], axis: 0, qs: vec![], layout });
+                    cases.push(Case { routine: r, class: 6, shape: shape.clone(), second: vec![], axis: 0, qs: vec![], layout, alias: false });
                 }
             }
             if shape.len() == 1 {
                 for r in ["Sqrt", "Rice", "Sturges", "FreedmanDiaconis", "Auto"] {
-                    cases.push(Case { routine: r, class: 7, shape: shape.clone(), second: vec![], axis: 0, qs: vec![], layout });
+                    cases.push(Case { routine: r, class: 7, shape: shape.clone(), second: vec![], axis: 0, qs: vec![], layout, alias: false });
+                }
+            }
+        }
+    }
+    let mut alias_cases: Vec<Case> = Vec::new();
+    for shape in &shapes {
+        for sec in seconds(shape) {
+            if sec.len() != shape.len() {
+                continue;
+            }
+            for layout in 0..2u8 {
+                for r in PAIR {
+                    alias_cases.push(Case { routine: r, class: 1, shape: shape.clone(), second: sec.clone(), axis: 0, qs: vec![], layout, alias: true });
+                }
+                for r in SUMPAIR {
+                    alias_cases.push(Case { routine: r, class: 2, shape: shape.clone(), second: sec.clone(), axis: 0, qs: vec![], layout, alias: true });
                 }
             }
         }
@@ -452,6 +483,15 @@ fn main() {
         },
     );
     let zcases = [vec![3usize], vec![2], vec![2, 3], vec![3, 2], vec![2, 1, 2]].iter().flat_map(|sh| (0..6u8).flat_map(move |kind| (0..8u8).map(move |r| (sh.clone(), kind, r)))).collect::<Vec<_>>();
+    rep.run_sub(
+        "operands-sharing-a-buffer",
+        "the 18 two-input and 2 sum-type routines with both operands windows of ONE array (standard and column-major) that start at the same address and have the same strides: the second shape is the first one, one more along axis 0, zero along the last axis, reversed - an array against itself is Ok, against a longer or shorter window of itself ShapeMismatch (or EmptyInput when the first has no elements)",
+        alias_cases.into_iter(),
+        |c, lx| {
+            lx.nontrivial(c.shape != c.second);
+            body(c, lx)
+        },
+    );
     rep.run_sub(
         "zero-total-weight",
         "8 weighted routines x non-empty shapes (3,), (2,), (2,3), (3,2), (2,1,2) x layouts x weights that are all zero or cancel exactly (+1, -1, ...): none of the documented error conditions holds, so the result must be Ok (the numeric value is not judged)",
